@@ -3,7 +3,7 @@
 From Coq Require Import ZArith List Bool Arith Lia.
 From MomoCommon Require Import GenPrelude.
 From C20 Require Import PoolAlloc.
-From C20 Require Gen_PoolAllocator Gen_MemPoolOps Gen_MemPool.
+From C20 Require Gen_PoolAllocator Gen_MemPoolOps Gen_MemPool Gen_MemPoolNewBlock Gen_PoolAllocatorHandles.
 Import ListNotations.
 Local Open Scope nat_scope.
 
@@ -1615,7 +1615,79 @@ Theorem socc_failure_propagates st h :
   step st (OpSoccFail h) = Ok (st, mkObs None None (hpool (handles st h)) 0 0 false).
 Proof. repeat split; reflexivity. Qed.
 
+(* ------------------------------------------------------------------ round 7: owners and the life time of a pool *)
+(* the copy constructor (81-84, member initialiser translated with ctor_inits) and operator= (88-92), GENERATED: the
+   allocator's pool pointer becomes the source's; the model's OpCopy / OpMove / OpAssign do exactly that *)
+Theorem gen_handle_ops_refine st h hd hs :
+  (forall st1 ob, step st (OpCopy h) = Ok (st1, ob) ->
+     Z.of_nat (hpool (handles st1 (nhandles st))) = Gen_PoolAllocatorHandles.CopyCtor 0%Z (Z.of_nat (hpool (handles st h)))) /\
+  (forall st1 ob, step st (OpMove h) = Ok (st1, ob) ->
+     Z.of_nat (hpool (handles st1 (nhandles st))) = Gen_PoolAllocatorHandles.CopyCtor 0%Z (Z.of_nat (hpool (handles st h)))) /\
+  (forall st1 ob, step st (OpAssign hd hs) = Ok (st1, ob) ->
+     (tt, Z.of_nat (hpool (handles st1 hd))) = Gen_PoolAllocatorHandles.Assign (Z.of_nat (hpool (handles st hd))) (Z.of_nat (hpool (handles st hs)))).
+Proof.
+  unfold Gen_PoolAllocatorHandles.CopyCtor, Gen_PoolAllocatorHandles.Assign. split; [|split].
+  - intros st1 ob E. simpl in E. inversion E; subst. unfold push_handle; proj. rewrite updn_same. reflexivity.
+  - intros st1 ob E. simpl in E. inversion E; subst. unfold push_handle; proj. rewrite updn_same. reflexivity.
+  - intros st1 ob E. simpl in E.
+    destruct (release (acquire st (hpool (handles st hs))) (hpool (handles st hd))) as [[s1 fr]| | |]; try discriminate.
+    inversion E; subst. unfold set_handle; proj. rewrite updn_same. reflexivity.
+Qed.
+
+(* the pool object exists EXACTLY as long as some living allocator object points to it: it is destroyed when, and only
+   when, the last owner goes (reference counting = counting the living handles) *)
+Theorem pool_alive_iff_owned : forall ops st' obs, good true init ops = true -> run init ops = Ok (st', obs) ->
+  forall p, p < npools st' ->
+    (palive (pools st' p) = true <->
+     exists h, h < nhandles st' /\ halive (handles st' h) = true /\ hpool (handles st' h) = p) /\
+    prefs (pools st' p) = sumn (nhandles st') (fun h => owns p (handles st' h)).
+Proof.
+  intros ops st' obs G E p Hp. destruct (run_good init ops inv_init G) as [st2 [obs2 [E2 [I _]]]].
+  rewrite E in E2. inversion E2; subst st2 obs2. split; [|apply (i_refs _ I p Hp)].
+  rewrite (i_alive _ I p Hp), (i_refs _ I p Hp). split.
+  - intros Ha. destruct (Nat.eqb_spec (sumn (nhandles st') (fun h => owns p (handles st' h))) 0) as [|Hne]; [discriminate|].
+    destruct (sumn_pos_ex _ _ Hne) as [h [Hh Ho]]. cbv beta in Ho. unfold owns in Ho.
+    destruct (halive (handles st' h)) eqn:Eh; [|simpl in Ho; lia].
+    destruct (Nat.eqb_spec (hpool (handles st' h)) p); [|simpl in Ho; lia]. exists h. auto.
+  - intros [h [Hh [Ha Hq]]].
+    pose proof (sumn_ge (nhandles st') (fun k => owns p (handles st' k)) h Hh) as Gq. cbv beta in Gq.
+    unfold owns at 1 in Gq. rewrite Ha, Hq, Nat.eqb_refl in Gq. simpl in Gq.
+    destruct (Nat.eqb_spec (sumn (nhandles st') (fun h0 => owns p (handles st' h0))) 0); [lia | reflexivity].
+Qed.
+
 End Proofs.
+
+(* ------------------------------------------------------------------ round 7: the buffer step of a pooled allocate *)
+(* MemPool::pvNewBlock (MemPool.h:516-535), GENERATED with the buffer allocation as a step that may throw
+   (pvNewBuffer_fails) and every store into pool memory as an effect on [mem]: STRONG exception guarantee - when the
+   base allocator throws (for the first buffer or for the look-ahead buffer) the function has written nothing: the
+   free-buffer head and the pool memory are exactly as before.  This is what OpAllocFail's "pool unchanged but for the
+   buffers it already owns" and the `sane` observation rest on.  (Wave-2 seed b reorders the stores before the look-ahead
+   allocation: this theorem then fails.) *)
+Theorem pvNewBlock_strong_guarantee lb ln ba lnf nb sb sn sp bf bc bp head mem done head' mem' :
+  Gen_MemPoolNewBlock.pvNewBlock lb ln ba lnf nb sb sn sp bf bc bp head mem true = Ok (done, head', mem') ->
+  (done = false -> head' = head /\ mem' = mem) /\
+  (done = true -> head <> 0%Z /\ negb ((bc (lb head) =? 1)%Z && (ln head =? 0)%Z) = true).
+Proof.
+  unfold Gen_MemPoolNewBlock.pvNewBlock. intros E.
+  destruct (Z.eqb_spec head 0) as [->|Hh].
+  - inversion E; subst. split; [auto | discriminate].
+  - cbv zeta in E. destruct ((bc (lb head) =? 1)%Z && (ln head =? 0)%Z) eqn:El.
+    + inversion E; subst. split; [auto | discriminate].
+    + inversion E; subst. split; [discriminate | auto].
+Qed.
+
+(* without a failure the block is taken from the head buffer and the head moves on exactly when that was its last block *)
+Theorem pvNewBlock_success_effect lb ln ba lnf nb sb sn sp bf bc bp head mem :
+  head <> 0%Z -> negb ((bc (lb head) =? 1)%Z && (ln head =? 0)%Z) = true ->
+  Gen_MemPoolNewBlock.pvNewBlock lb ln ba lnf nb sb sn sp bf bc bp head mem false =
+  Ok (true, (if (bc (lb head) - 1 =? 0)%Z then ln head else head),
+      sb mem head (bp (lnf (ba head (bf (lb head)))) (bc (lb head) - 1)%Z)).
+Proof.
+  intros Hh Hl. unfold Gen_MemPoolNewBlock.pvNewBlock.
+  destruct (Z.eqb_spec head 0); [contradiction|]. cbv zeta.
+  apply negb_true_iff in Hl. rewrite Hl. reflexivity.
+Qed.
 
 (* ------------------------------------------------------------------ outside the claim: without H *)
 Definition t24 : vtype := mkVt 24 8.
